@@ -2,7 +2,7 @@
    PARTIAL (see C01.v for the reason): decision rules + facts about how the
    recorded dependency set is maintained. *)
 From Coq Require Import ZArith List.
-From Redo Require Import Base.Bytes Build.Model Build.LocalProofs Build.FailProofs Build.Protect Build.CleanProofs Build.CleanDb Build.Settle Build.SettleJob.
+From Redo Require Import Base.Bytes Build.Model Build.LocalProofs Build.FailProofs Build.Protect Build.CleanProofs Build.CleanDb Build.Settle Build.SettleJob Build.Maxrun Build.SettleForever.
 
 Theorem C02_never_built_runs : forall fuel runid cyc w c f r mx seen,
   existsb (Nat.eqb f) seen = false ->
@@ -257,6 +257,36 @@ Check C02_successful_build_settles : forall rk watched R (L : list name) k ts w 
   QUIET R (rkf rk w') (ok R w' nil) w'.
 Print Assumptions C02_successful_build_settles.
 
+(* ... and then nothing runs, n times for every n: the same premises, the
+   build's exit 0, and the rank of the targets below the fuel of later commands
+   (Build/Maxrun.v: nothing a build does changes the run-id counter;
+   Build/SettleForever.v) *)
+Theorem C02_build_then_nothing_forever : forall rk watched R (L : list name) k ts w w' evs,
+  R = (maxrun (dbs w) + 1)%Z -> (0 < R)%Z ->
+  wfw_b R rk (fst (new_run w)) = true -> fresh_b R (fst (new_run w)) = true ->
+  xr_b (fst (new_run w)) = true -> cre_b watched (fst (new_run w)) = true ->
+  (forall n, watched n = true -> reserved n = false) ->
+  (forall t, watched t = false -> reserved t = false -> In t L) ->
+  forallb (proj_t_b rk watched (fst (new_run w))) L = true ->
+  forallb (fun t => negb (watched t) && negb (reserved t)) ts = true ->
+  exec (CIfChange k ts) w = (w', OutBuild evs 0%Z) ->
+  forallb (fun t => Nat.ltb (rk t) (default_fuel w' - 1)) ts = true ->
+  forall n, Forall (noop_result w') (repeat_exec n (CIfChange k ts) w').
+Proof. exact build_then_nothing. Qed.
+Check C02_build_then_nothing_forever : forall rk watched R (L : list name) k ts w w' evs,
+  R = (maxrun (dbs w) + 1)%Z -> (0 < R)%Z ->
+  wfw_b R rk (fst (new_run w)) = true -> fresh_b R (fst (new_run w)) = true ->
+  xr_b (fst (new_run w)) = true -> cre_b watched (fst (new_run w)) = true ->
+  (forall n, watched n = true -> reserved n = false) ->
+  (forall t, watched t = false -> reserved t = false -> In t L) ->
+  forallb (proj_t_b rk watched (fst (new_run w))) L = true ->
+  forallb (fun t => negb (watched t) && negb (reserved t)) ts = true ->
+  exec (CIfChange k ts) w = (w', OutBuild evs 0%Z) ->
+  forallb (fun t => Nat.ltb (rk t) (default_fuel w' - 1)) ts = true ->
+  forall n, Forall (fun x => fs (fst x) = fs w' /\ exists evs', snd x = OutBuild evs' 0%Z /\ Forall quiet_ev evs')
+                   (repeat_exec n (CIfChange k ts) w').
+Print Assumptions C02_build_then_nothing_forever.
+
 (* the invariant itself, for every command at every nesting depth *)
 Theorem C02_every_command_keeps_the_invariant : forall R, (0 < R)%Z -> forall rk watched fuel,
   rec_spec R rk watched (build fuel).
@@ -293,7 +323,8 @@ Example C02_whole_build_example :
     let R := (maxrun (dbs w) + 1)%Z in let w1 := fst (new_run w) in
     (Z.ltb 0 R && wfw_b R ex_rk w1 && fresh_b R w1 && xr_b w1 && cre_b ex_watched w1
      && forallb (proj_t_b ex_rk ex_watched w1) ex_L
-     && forallb (fun t => negb (ex_watched t) && negb (reserved t)) (ex_T :: nil))%bool in
+     && forallb (fun t => negb (ex_watched t) && negb (reserved t)) (ex_T :: nil)
+     && forallb (fun t => Nat.ltb (ex_rk t) (default_fuel (fst (exec (CIfChange false (ex_T :: nil)) w)) - 1)) (ex_T :: nil))%bool in
   let runs := fun w => match snd (exec (CIfChange false (ex_T :: nil)) w) with
                        | OutBuild evs rc => Some (rc, length (filter (fun e => match e with EvRun _ _ _ _ => true | _ => false end) evs))
                        | _ => None end in
